@@ -5,8 +5,8 @@
    `n : Z` is the i32 lag (every integer, so i32::MIN/MAX and |n| >= len are included);
    `NullDict` is the IsNone dictionary; `or_none d value = Ok v` says the effective fill value is v
    (value = Some v, or value = None on a type whose none() exists).                              *)
-From Coq Require Import QArith.
-From Tevec Require Import Base.Prelude Model.MapOps Spec.MapOps Proofs.MapOps Proofs.MapOpsExamples.
+From Coq Require Import QArith Reals Floats.
+From Tevec Require Import Base.XR Base.Prelude Model.MapOps Spec.MapOps Proofs.MapOps Proofs.MapOpsExamples Proofs.Audit13.
 Local Open Scope Z_scope.
 
 (* ---- (1) shift / vshift ------------------------------------------------------------------------ *)
@@ -343,6 +343,269 @@ Example C13_ex_abs :
   (forall v : Z, (fun _ : Z => false) (Z.abs v) = (fun _ : Z => false) v).
 Proof. split; [|split]; vm_compute; reflexivity. Qed.
 
+(* ================================================================================================ *)
+(* AUDIT (notes/C13.md, "Audit matrix"): clauses that had no theorem, hypotheses weakened to exactly *)
+(* what the code rejects, what must not change, degenerate inputs, numeric carriers.                 *)
+(* Proofs: Proofs/Audit13.v.                                                                         *)
+(* ================================================================================================ *)
+
+(* ---- (8) the i32 lag: `n.unsigned_abs() as usize` is |n| for EVERY i32, i32::MIN included; a signed
+        negation would overflow there.  (Two's-complement definitions: Proofs/Audit13.v.) ---- *)
+Theorem C13_lag_unsigned_abs :
+  forall n : Z, in_i32 n -> i32_unsigned_abs n = Z.abs n /\ 0 <= i32_unsigned_abs n <= 2 ^ 31.
+Proof. intros n H. split; [apply i32_unsigned_abs_spec|apply i32_unsigned_abs_range]; exact H. Qed.
+
+Theorem C13_lag_i32_min :
+  i32_checked_neg i32_min = Panic Overflow /\ i32_wrapping_abs i32_min = i32_min /\
+  i32_unsigned_abs i32_min = 2 ^ 31 /\ i32_unsigned_abs i32_max = 2 ^ 31 - 1.
+Proof. exact i32_min_neg. Qed.
+
+(* ---- (9) shift / vshift corner lags, stated as whole results ---- *)
+(* lag 0: the series itself (nothing changes, the fill value is not used) *)
+Theorem C13_shift_zero_identity :
+  forall (T I : Type) (d : NullDict T I) (v : T) (value : option T) (xs : list T),
+  shift 0 v xs = Ok xs /\ (or_none d value = Ok v -> vshift d 0 value xs = Ok xs).
+Proof. intros T I d v value xs. split; [apply shift_zero|exact (vshift_zero d value v xs)]. Qed.
+
+(* |n| >= len: every place holds the fill; in particular i32::MIN / i32::MAX on any series shorter than 2^31 *)
+Theorem C13_shift_beyond_length :
+  forall (T : Type) (n : Z) (v : T) (xs : list T),
+  (Z.of_nat (length xs) <= Z.abs n -> shift n v xs = Ok (repeat v (length xs))) /\
+  ((n = i32_min \/ n = i32_max) -> Z.of_nat (length xs) < 2 ^ 31 -> shift n v xs = Ok (repeat v (length xs))).
+Proof. intros T n v xs. split; [apply shift_beyond|apply shift_extreme]. Qed.
+
+(* the omitted fill on a type without a null: vshift / vdiff return iff the effective fill exists, and the
+   panic is none()'s — for every lag and every series, the empty one included *)
+Theorem C13_vshift_returns_iff_fill_exists :
+  forall (T I : Type) (d : NullDict T I) (n : Z) (value : option T) (xs : list T) (k : panic_kind),
+  ((exists r, vshift d n value xs = Ok r) <-> (exists v, or_none d value = Ok v)) /\
+  (vshift d n value xs = Panic k <-> (value = None /\ none d = Panic k)).
+Proof. intros T I d n value xs k. split; [apply vshift_total_iff|apply vshift_panic_iff]. Qed.
+
+Theorem C13_vdiff_panics_iff_fill_missing :
+  forall (T I : Type) (d : NullDict T I) (sub : T -> T -> T) (n : Z) (value : option T) (xs : list T) (k : panic_kind),
+  vdiff d sub n value xs = Panic k <-> (value = None /\ none d = Panic k).
+Proof. intros T I d sub n value xs k. apply vdiff_panic_iff. Qed.
+
+(* ---- (10) "exactly as many elements as the input", with NO hypothesis, for the operations whose
+         positional theorem carries one ---- *)
+Theorem C13_lengths_unconditional :
+  forall (T I F : Type) (d : NullDict T I) (sub : T -> T -> T) (o : FOps F) (cast : T -> F)
+         (n : Z) (v : T) (value : option T) (xs r : list T),
+  (shift n v xs = Ok r -> length r = length xs) /\
+  (vshift d n value xs = Ok r -> length r = length xs) /\
+  (vdiff d sub n value xs = Ok r -> length r = length xs) /\
+  (exists q, vpct_change d o cast n xs = Ok q /\ length q = length xs).
+Proof.
+  intros T I F d sub o cast n v value xs r.
+  split; [apply shift_length|]. split; [apply vshift_length|]. split; [apply vdiff_length|apply vpct_change_total].
+Qed.
+
+(* ---- (11) vdiff / vpct_change corner lags as whole results ---- *)
+Theorem C13_vdiff_corner_lags :
+  forall (T I : Type) (d : NullDict T I) (sub : T -> T -> T) (n : Z) (value : option T) (v : T) (xs : list T),
+  or_none d value = Ok v ->
+  vdiff d sub 0 value xs = Ok (map (fun x => sub x x) xs) /\
+  (Z.of_nat (length xs) <= Z.abs n -> vdiff d sub n value xs = Ok (repeat v (length xs))).
+Proof. intros T I d sub n value v xs H. split; [apply (vdiff_zero d sub value v xs H)|apply vdiff_beyond; exact H]. Qed.
+
+Theorem C13_vpct_change_corner_lags :
+  forall (T I F : Type) (d : NullDict T I) (o : FOps F) (cast : T -> F) (n : Z) (xs : list T),
+  vpct_change d o cast 0 xs = Ok (map (fun x => pct_neg d o cast x x) xs) /\
+  (Z.of_nat (length xs) <= Z.abs n -> vpct_change d o cast n xs = Ok (repeat (fnanv o) (length xs))).
+Proof. intros T I F d o cast n xs. split; [apply vpct_change_zero|apply vpct_change_beyond]. Qed.
+
+(* ---- (12) ffill / bfill without the hypothesis `or_none d value = Ok dv`: the default is needed
+         only for a masked FIRST (ffill) / LAST (bfill) element; otherwise the result is the positional
+         one whatever `value` is (dv is arbitrary: it is never read), and the only panic is none()'s at
+         such a head ---- *)
+Theorem C13_ffill_head_unmasked :
+  forall (T I : Type) (d : NullDict T I) (mask : T -> bool) (value : option T) (dv : T) (xs : list T),
+  (forall x, hd_error xs = Some x -> mask x = false) ->
+  ffill_mask d mask value xs = Ok (mapi (ffill_at mask dv xs) xs).
+Proof. intros T I d mask value dv xs. apply ffill_mask_head_unmasked. Qed.
+
+Theorem C13_bfill_tail_unmasked :
+  forall (T I : Type) (d : NullDict T I) (mask : T -> bool) (value : option T) (dv : T) (xs : list T),
+  (forall x, hd_error (rev xs) = Some x -> mask x = false) ->
+  bfill_mask d mask value xs = Ok (mapi (bfill_at mask dv xs) xs).
+Proof. intros T I d mask value dv xs. apply bfill_mask_tail_unmasked. Qed.
+
+Theorem C13_fill_directional_panics_iff :
+  forall (T I : Type) (d : NullDict T I) (mask : T -> bool) (value : option T) (xs : list T) (k : panic_kind),
+  (ffill_mask d mask value xs = Panic k <->
+   (value = None /\ none d = Panic k /\ exists x, hd_error xs = Some x /\ mask x = true)) /\
+  (bfill_mask d mask value xs = Panic k <->
+   (value = None /\ none d = Panic k /\ exists x, hd_error (rev xs) = Some x /\ mask x = true)).
+Proof. intros T I d mask value xs k. split; [apply ffill_mask_panic_iff|apply bfill_mask_panic_iff]. Qed.
+
+(* ---- (13) what the fills leave alone, and where a null can remain ---- *)
+(* a place is still masked after ffill / bfill iff it was masked, every earlier / later element is masked and the
+   default is masked; an unmasked place keeps its value *)
+Theorem C13_fill_directional_remaining_nulls :
+  forall (T : Type) (mask : T -> bool) (dv : T) (xs : list T) (i : nat) (x : T),
+  mask (ffill_at mask dv xs i x) = mask x && forallb mask (firstn i xs) && mask dv /\
+  mask (bfill_at mask dv xs i x) = mask x && forallb mask (skipn (S i) xs) && mask dv /\
+  (mask x = false -> ffill_at mask dv xs i x = x /\ bfill_at mask dv xs i x = x).
+Proof.
+  intros T mask dv xs i x. split; [apply ffill_at_masked_iff|]. split; [apply bfill_at_masked_iff|].
+  intros H. split; [apply ffill_at_unmasked|apply bfill_at_unmasked]; exact H.
+Qed.
+
+(* fill: no null is left when the value is non-null; null pattern afterwards; idempotent; identity when
+   nothing is selected *)
+Theorem C13_fill_result_nulls :
+  forall (T I : Type) (d : NullDict T I) (v : T) (xs : list T),
+  (is_none d v = false -> Forall (fun y => is_none d y = false) (fill d v xs)) /\
+  (forall i x, nth_error xs i = Some x ->
+     exists y, nth_error (fill d v xs) i = Some y /\ is_none d y = is_none d x && is_none d v).
+Proof. intros T I d v xs. split; [apply fill_no_nulls_left|apply fill_nullness]. Qed.
+
+Theorem C13_fill_idempotent_and_identity :
+  forall (T : Type) (mask : T -> bool) (v : T) (xs : list T),
+  fill_mask mask v (fill_mask mask v xs) = fill_mask mask v xs /\
+  ((forall x, In x xs -> mask x = false) -> fill_mask mask v xs = xs).
+Proof. intros T mask v xs. split; [apply fill_mask_idempotent|apply fill_mask_unmasked]. Qed.
+
+(* ---- (14) clip with degenerate bounds: what the code does where idempotence / containment are not claimed ---- *)
+(* both bounds null: the series itself, for every dictionary (nothing is unwrapped); one bound null: one-sided *)
+Theorem C13_clip_null_bounds :
+  forall (T I : Type) (d : NullDict T I) (inner : T -> I) (ltb : I -> I -> bool) (lower upper : T) (xs : list T) (x : T),
+  (is_none d lower = true -> is_none d upper = true -> vclip d ltb lower upper xs = Ok xs) /\
+  (is_none d upper = true -> is_none d x = false -> is_none d lower = false ->
+   clip_elem d inner ltb lower upper x = if ltb (inner x) (inner lower) then lower else x) /\
+  (is_none d lower = true -> is_none d x = false -> is_none d upper = false ->
+   clip_elem d inner ltb lower upper x = if ltb (inner upper) (inner x) then upper else x).
+Proof.
+  intros T I d inner ltb lower upper xs x. split; [apply vclip_null_bounds|].
+  split; [apply clip_elem_lower_only|apply clip_elem_upper_only].
+Qed.
+
+(* lower > upper is accepted silently: every non-null element becomes lower (if below it) or upper, and a second
+   application swaps them — never idempotent, never contained *)
+Theorem C13_clip_reversed_bounds :
+  forall (T I : Type) (d : NullDict T I) (inner : T -> I) (ltb : I -> I -> bool),
+  (forall a, ltb a a = false) -> (forall a b c, ltb a b = true -> ltb a c = true \/ ltb c b = true) ->
+  forall (lower upper x : T),
+  is_none d lower = false -> is_none d upper = false -> ltb (inner upper) (inner lower) = true ->
+  is_none d x = false ->
+  clip_elem d inner ltb lower upper x = (if ltb (inner x) (inner lower) then lower else upper) /\
+  clip_elem d inner ltb lower upper (clip_elem d inner ltb lower upper x)
+  = (if ltb (inner x) (inner lower) then upper else lower).
+Proof. intros T I d inner ltb H1 H2 lower upper x. apply clip_elem_reversed; assumption. Qed.
+
+Theorem C13_clip_reversed_bounds_refute_idempotence :
+  exists lo hi x : Z,
+    let c := clip_elem dict_int (fun v : Z => v) Z.ltb lo hi in
+    hi < lo /\ c (c x) <> c x /\ leb_of Z.ltb (c x) hi = false.
+Proof.
+  exists 5, 1, 0. destruct clip_reversed_Z_witness as (H1 & H2 & H3 & H4). cbv zeta.
+  split; [lia|]. split; [exact H3|exact H4].
+Qed.
+
+(* a bound that compares false with everything (an inner NaN under Some, outside DESIGN 5.4) does nothing *)
+Theorem C13_clip_unordered_bounds :
+  forall (T I : Type) (d : NullDict T I) (inner : T -> I) (ltb : I -> I -> bool) (lower upper x : T),
+  (forall a, ltb a (inner lower) = false) -> (forall a, ltb (inner upper) a = false) ->
+  clip_elem d inner ltb lower upper x = x.
+Proof. intros T I d inner ltb lower upper x. apply clip_elem_unordered_bounds. Qed.
+
+(* ---- (15) carriers.  Exact reals with a null (option R): the arithmetic premises are discharged and the
+         values are the textbook ones ---- *)
+Theorem C13_vdiff_real :
+  forall (n : Z) (value : option (option R)) (xs : list (option R)),
+  exists r, vdiff d_xr xr_sub n value xs = Ok r /\ length r = length xs /\
+    forall i, (i < length xs)%nat ->
+      nth_error r i = Some (diff_real n (match value with Some v => v | None => None end) xs i).
+Proof. exact vdiff_real. Qed.
+
+Theorem C13_vpct_change_real :
+  forall (n : Z) (xs : list (option R)),
+  exists r, vpct_change d_xr xr_ops (fun x => x) n xs = Ok r /\ length r = length xs /\
+    forall i, (i < length xs)%nat -> nth_error r i = Some (pct_real n xs i).
+Proof. exact vpct_change_real. Qed.
+
+Theorem C13_clip_real :
+  forall lo hi x : R, (lo <= hi)%R ->
+  clip_elem d_xr (fun v => v) xltb (Some lo) (Some hi) (Some x) = Some (Rmax lo (Rmin hi x)).
+Proof. exact clip_elem_real. Qed.
+
+(* ---- (16) binary64 (Coq's primitive float = the instance Run/RunC13.v executes against the code): NaN is the
+         null; premises that were IEEE facts are proved from the standard library's specification ---- *)
+Theorem C13_vdiff_null_operand_binary64 :
+  forall (n : Z) (v : float) (xs : list float) (i : nat),
+  in_range (length xs) (src n i) = true ->
+  is_nan (nth i xs v) = true \/ is_nan (nth (Z.to_nat (src n i)) xs v) = true ->
+  is_nan (diff_at PrimFloat.sub n v xs i) = true.
+Proof. exact vdiff_null_operand_f64. Qed.
+
+Theorem C13_vpct_change_binary64 :
+  forall (n : Z) (xs : list float),
+  exists r, vpct_change d_f64 f64_fops (fun x => x) n xs = Ok r /\ length r = length xs /\
+    forall i, (i < length xs)%nat -> nth_error r i = Some (pct_at d_f64 f64_fops (fun x => x) n xs i).
+Proof. exact vpct_change_f64. Qed.
+
+(* clip at binary64, bounds in order (not upper < lower) or NaN: idempotent, NaN kept, result inside the non-NaN bounds *)
+Theorem C13_clip_binary64 :
+  forall lower upper x : float,
+  (is_nan lower = false -> is_nan upper = false -> (upper <? lower)%float = false) ->
+  let c := clip_elem d_f64 (fun v => v) PrimFloat.ltb lower upper in
+  c (c x) = c x /\ is_nan (c x) = is_nan x /\
+  (is_nan x = false ->
+   (is_nan lower = false -> (c x <? lower)%float = false) /\
+   (is_nan upper = false -> (upper <? c x)%float = false)).
+Proof. exact clip_f64. Qed.
+
+Theorem C13_vabs_binary64 :
+  forall xs : list float,
+  vabs d_f64 abs xs = Ok (map abs xs) /\
+  forall i x, nth_error xs i = Some x ->
+    exists y, nth_error (map abs xs) i = Some y /\ is_nan y = is_nan x.
+Proof. exact vabs_f64. Qed.
+
+Theorem C13_binary64_instance_is_the_run_instance :
+  f64_fops = Tevec.Run.RunC13.f64ops /\ d_f64 = Tevec.Run.RunC13.dict Tevec.Run.RunC13.pF.
+Proof. split; [exact f64_fops_is_run_ops|exact d_f64_is_run_dict]. Qed.
+
+(* ---- non-vacuity of the audit theorems ---- *)
+Example C13_ex_audit_lags :
+  in_i32 i32_min /\ in_i32 i32_max /\ in_i32 0 /\
+  shift i32_min 9 [1; 2] = Ok [9; 9] /\ vdiff dict_int Z.sub i32_max (Some 7) [4; 1] = Ok [7; 7] /\
+  vshift dict_int 1 None ([] : list Z) = Panic OtherPanic /\ vdiff dict_int Z.sub 0 None [4] = Panic OtherPanic.
+Proof. unfold in_i32, i32_min, i32_max. vm_compute. repeat split; discriminate. Qed.
+
+(* head unmasked with no default on an integer type: returns; head masked: none()'s panic; bfill symmetric *)
+Example C13_ex_audit_fills :
+  let m := fun v : Z => v <? 2 in
+  ffill_mask dict_int m None [3; 1; 5; 0] = Ok [3; 3; 5; 5] /\
+  ffill_mask dict_int m None [1; 3] = Panic OtherPanic /\
+  bfill_mask dict_int m None [1; 3; 0; 4] = Ok [3; 3; 4; 4] /\
+  bfill_mask dict_int m None [3; 1] = Panic OtherPanic /\
+  (forall x, hd_error [3; 1; 5; 0] = Some x -> m x = false) /\
+  (forall x, hd_error (rev [1; 3; 0; 4]) = Some x -> m x = false) /\
+  let d := dict_opt (fun _ : Z => false) in
+  ffill d (Some None) [None; Some 1; None] = Ok [None; Some 1; Some 1] /\
+  fill d (Some 9) [None; Some 1] = [Some 9; Some 1] /\ is_none d (Some 9) = false.
+Proof.
+  cbv zeta. repeat split; try (vm_compute; reflexivity).
+  - intros x H. cbn in H. injection H as <-. reflexivity.
+  - intros x H. cbn in H. injection H as <-. reflexivity.
+Qed.
+
+Example C13_ex_audit_clip :
+  let d := dict_opt (fun _ : Z => false) in
+  vclip d Z.ltb (Some 5) (Some 1) [Some 0; None; Some 3; Some 7] = Ok [Some 5; None; Some 5; Some 1] /\
+  (forall a, Z.ltb a a = false) /\ (forall a b c, (a <? b) = true -> (a <? c) = true \/ (c <? b) = true) /\
+  (1 <? 5) = true.
+Proof. cbv zeta. split; [vm_compute; reflexivity|]. split; [exact Z.ltb_irrefl|]. split; [exact Zltb_cotrans|reflexivity]. Qed.
+
+Example C13_ex_audit_binary64 :
+  vpct_change d_f64 f64_fops (fun x => x) 1 [1; 2; nan; 0; 4]%float = Ok [nan; 1; nan; nan; nan]%float /\
+  vclip d_f64 PrimFloat.ltb 1%float 3%float [0; nan; 2; 7]%float = Ok [1; nan; 2; 3]%float /\
+  (3 <? 1)%float = false /\ is_nan 1%float = false.
+Proof. vm_compute. repeat split. Qed.
+
+
 Print Assumptions C13_shift_positional.
 Print Assumptions C13_vshift_positional.
 Print Assumptions C13_shift_moves_by_n.
@@ -379,3 +642,30 @@ Print Assumptions C13_abs_positional.
 Print Assumptions C13_vabs_elementwise.
 Print Assumptions C13_vabs_preserves_nullness.
 Print Assumptions C13_vabs_length.
+Print Assumptions C13_lag_unsigned_abs.
+Print Assumptions C13_lag_i32_min.
+Print Assumptions C13_shift_zero_identity.
+Print Assumptions C13_shift_beyond_length.
+Print Assumptions C13_vshift_returns_iff_fill_exists.
+Print Assumptions C13_vdiff_panics_iff_fill_missing.
+Print Assumptions C13_lengths_unconditional.
+Print Assumptions C13_vdiff_corner_lags.
+Print Assumptions C13_vpct_change_corner_lags.
+Print Assumptions C13_ffill_head_unmasked.
+Print Assumptions C13_bfill_tail_unmasked.
+Print Assumptions C13_fill_directional_panics_iff.
+Print Assumptions C13_fill_directional_remaining_nulls.
+Print Assumptions C13_fill_result_nulls.
+Print Assumptions C13_fill_idempotent_and_identity.
+Print Assumptions C13_clip_null_bounds.
+Print Assumptions C13_clip_reversed_bounds.
+Print Assumptions C13_clip_reversed_bounds_refute_idempotence.
+Print Assumptions C13_clip_unordered_bounds.
+Print Assumptions C13_vdiff_real.
+Print Assumptions C13_vpct_change_real.
+Print Assumptions C13_clip_real.
+Print Assumptions C13_vdiff_null_operand_binary64.
+Print Assumptions C13_vpct_change_binary64.
+Print Assumptions C13_clip_binary64.
+Print Assumptions C13_vabs_binary64.
+Print Assumptions C13_binary64_instance_is_the_run_instance.
